@@ -5,6 +5,7 @@ cd /verif
 for d in seeded/*/; do
   n=$(basename $d)
   [ -f $d/patch.diff ] || continue
+  if grep -q '"status": "neutralised"' $d/meta.json; then echo "$n skipped (neutralised by a later fix, see meta.json)"; continue; fi
   out=$(tools/run_seeded.sh $n "$@" 2>&1)
   ex=$(echo "$out" | grep -o "exit=[0-9]*" | tail -1)
   kinds=$(echo "$out" | grep -E "^  [a-zA-Z0-9_:<>=.-]+: " | sed -E 's/^  ([^ ]+): .*/\1/' | sort -u | tr '\n' ' ')
